@@ -167,9 +167,9 @@ def run(cx):
                 continue
             val = simplify(dag.rvalue(pay['rv'], bb, pos))
             g = cx.guarded(b, bb, f'(lt _ {D})', True)
-            if g is not None and match(f'(agg tuple (0 {I}) (1 {J}))', val) is not None and b.local_name(pay['pl']['l']) == 'max_pair':
+            if g is not None and match(f'(agg tuple (0 {I}) (1 {J}))', val) is not None and pay['pl']['l'] in cx.returned_locals(b) | {0}:
                 upd_pair = True
-            if g is not None and match(D, val) is not None and b.local_name(pay['pl']['l']) == 'max_dist':
+            if g is not None and match(D, val) is not None and b.local_ty(pay['pl']['l']) == 'f64' and b.local_name(pay['pl']['l']):
                 upd_dist = True
         cmp_ok = any(find(f'(lt (anyphi 0.0) {D})', simplify(dag.operand(blk['term']['d'], bi, len(blk['stmts'])))) is not None
                      for bi, blk in enumerate(b.blocks) if bi in b.live and blk['term']['k'] == 'switch')
